@@ -229,7 +229,7 @@ def parseXMI (s : Src) : Option (Nat × Src) :=
         else let (t, s) := read2 s; (t, s)
     let (tracks, s) := walk (s.size + 2) 4 s
     if tracks == 0 then none else
-    let s := seek s ((start + (len + 1) / 2 * 2) % 4294967296)
+    let s := seek s (start + (len + 1) / 2 * 2)      -- xmi2mid_seekchunkend: a 64-bit sum, clamped to the size
     if s.pos + 12 > s.size then none else
     let (cat, s) := copy s 4
     if cat != tag "CAT " then none else
@@ -264,7 +264,7 @@ def extractTracks (tracks : Nat) (s : Src) : List (List XEv × Int) :=
             let (ctl, s2) := read2 acc.2
             let (off, s2) := read4le s2
             (if ctl < 128 then (acc.1.filter (·.1 != ctl)) ++ [(ctl, off)] else acc.1, s2)) (branch, s1)
-        go f (seek s ((begin + aligned) % 4294967296)) branch acc
+        go f (seek s (begin + (len + 1) / 2 * 2)) branch acc
       else if name != tag "EVNT" then go f (skipFwd s aligned) branch acc
       else
         let begin := s.pos
@@ -272,7 +272,7 @@ def extractTracks (tracks : Nat) (s : Src) : List (List XEv × Int) :=
         let sorted := (List.range 128).filterMap fun i => (branch.find? (·.1 == i))
         let (l, ppqn, _) := convertFileToList s sorted
         if ppqn == 0 then acc else
-        go f (seek s ((begin + aligned) % 4294967296)) [] (acc ++ [(l, ppqn)])
+        go f (seek s (begin + (len + 1) / 2 * 2)) [] (acc ++ [(l, ppqn)])
   go (s.size + 2) s [] []
 
 /-- Convert_xmi2midi_multi on the file image (the caller appends 20 zero bytes): one SMF image per sequence, or `none` -/
